@@ -42,13 +42,12 @@ Print Assumptions C16_best_threshold_offset_free.
 (* layers.  Proved: the default system is the last given (Metric when none); the best list of a
    quantity is built from the list given last for it (same store shape, and its ids are exactly
    the units the names resolve to in the final index); the all / metric / imperial fractions
-   settings are the last given, defaults filled in and clamped.
-   Not proved in general, hence [_partial]: what an extend block does to a unit
-   ([C16_precedence_extend_statement]; the rule for one entry is [C16_precedence_edit_rule]) and the
-   unit / quantity fractions tables. *)
-Definition C16_precedence_extend_statement : Prop :=
-  forall files c, build cfg_new files = Done (ROk c) -> single_extend_ok files c.
-
+   settings are the last given, defaults filled in and clamped.  Extend blocks: see
+   [C16_precedence_extend], [C16_extend_aliases], [C16_extend_entries_address_key_owners] below.
+   Not proved in general, hence [_partial]: the names and symbols after several extend entries
+   (the SI forms follow the current names of their base unit; the monitor of checks/c16.py states
+   this by an independent fold over the layers and evaluates it on every generated
+   configuration) and the unit / quantity fractions tables. *)
 Theorem C16_precedence_partial :
   forall files c, build cfg_new files = Done (ROk c) ->
     Some (c_default c) = last_given uf_default_system files (Some Metric) /\
@@ -66,6 +65,40 @@ Theorem C16_precedence_si_tables :
     (si_prefixes (b_si st), si_symbol_prefixes (b_si st)) = final_tables files.
 Proof. exact add_files_tables. Qed.
 Print Assumptions C16_precedence_si_tables.
+
+(* one extend entry in all the layers, whose key is a key of a declared unit: that unit ends up
+   exactly as the precedence rule says (names, symbols, aliases layered, ratio and difference
+   replaced), whatever SI expansion and re-indexing happen around it *)
+Definition C16_precedence_extend_statement : Prop :=
+  forall files c, build cfg_new files = Done (ROk c) -> single_extend_ok files c.
+
+Theorem C16_precedence_extend : C16_precedence_extend_statement.
+Proof. exact build_single_extend. Qed.
+Print Assumptions C16_precedence_extend.
+
+(* any number of entries in a block (model of the second loop of apply_extend_groups, for every
+   state of the builder): the aliases of EVERY unit - SI forms included - change only through the
+   entries addressed to that unit, by prepending / appending / replacing; in particular the aliases
+   a layer gave to an SI form survive every later edit of its base unit, which regenerates the form *)
+Theorem C16_extend_aliases :
+  forall p si ups units ix units' ix',
+    apply_updates ups p si units ix = Done (ROk (units', ix')) ->
+    forall j u, nth_error units j = Some u ->
+      exists u', nth_error units' j = Some u' /\
+                 aliases (ub_unit u') = aliases_after p ups j (aliases (ub_unit u)).
+Proof. exact apply_updates_aliases_ok. Qed.
+Print Assumptions C16_extend_aliases.
+
+(* ... and an entry is addressed to the unit that owns its key when the block starts ([WF] is the
+   invariant of the builder, which holds at the start of every block: Proofs/BuilderProofs.v
+   apply_extend_groups_spec) *)
+Theorem C16_extend_entries_address_key_owners :
+  forall units ix es ups, WF units ix -> resolve_entries es units ix [] = Done (ROk ups) ->
+    Forall2 (fun ke ie => snd ke = snd ie /\
+               exists u, nth_error units (fst ie) = Some u /\ In (fst ke) (all_keys (ub_unit u)))
+            es ups.
+Proof. exact resolve_entries_sound_ok. Qed.
+Print Assumptions C16_extend_entries_address_key_owners.
 
 (* one extend entry edits a unit exactly as the precedence rule says *)
 Theorem C16_precedence_edit_rule : forall u e p, edit_unit u e p = layered_unit u e p.
@@ -112,3 +145,10 @@ Proof. split; [exact w_panic_now | exact w_accept_now]. Qed.
 
 Example C16_si_forms_shipped : shipped_ok [units_toml] = true /\ shipped_ok [units_toml; units_spanish] = true.
 Proof. exact si_forms_shipped. Qed.
+
+Example C16_single_extend_satisfiable :
+  is_ok (build cfg_new w_ext) = true /\
+  extend_layers w_ext = [{| ex_prec := Before; ex_units := [(s_g, e_gramo)] |}] /\
+  (exists d, nth_error (declared w_ext) 4 = Some d /\ In s_g (all_keys (unit_of d)) /\
+             names (layered_unit (unit_of d) e_gramo Before) = [s_gramo; s_gram]).
+Proof. exact single_extend_example. Qed.
